@@ -65,6 +65,9 @@ def record_before_encode(F, res):
             ins = [i for i, e in enumerate(tr) if e['callee'].endswith('::instruction')]
             rec = [i for i, e in enumerate(tr) if e['callee'].endswith('Vec::push') and show(e['args'][0]) == 'MAP']
             if not ins:
+                if rec:
+                    # an offset is recorded for an opcode that this call never writes: it would point at whatever comes next
+                    good = False
                 continue
             n += 1
             if len(rec) != 1 or rec[0] > ins[0]:
